@@ -514,6 +514,13 @@ where
     fn push_read<'a, K: Sink<Self::R>>(k: &mut K, item: RI<'a, Self>) -> K::Out {
         k.put(item)
     }
+    fn push_owned_ref<'a, K: Sink<Self::R>>(k: &mut K, o: &'a String, which: usize) -> K::Out {
+        match which % 3 {
+            0 => k.put(o.as_str()),
+            1 => k.put(o),
+            _ => k.put(&o.as_str()),
+        }
+    }
     fn push_all_via<K: BatchSink<Self::R>>(k: &mut K, vs: &[String], f: &mut Forms) {
         match f.pick("Str(batch)", &["&String", "String", "&str"]) {
             0 => k.put_all(vs.iter()),
@@ -630,8 +637,48 @@ pub trait Elem: Clone + Debug + Eq + Hash + Serialize + DeserializeOwned + Send 
     fn heap(&self) -> usize {
         0
     }
+    /// Push `v` as a wrapped iterator over a slice read from a slice region of mirrors
+    /// (element types with a mirror region only). `which`: 0 the read slice itself (region
+    /// backed, not the first item), 1 its iterator, 2 the iterator of a vector-backed read slice.
+    fn put_iter_read<K: Sink<OwnedRegion<Self>>>(_k: &mut K, _v: &[Self], _which: usize) -> Option<K::Out> {
+        None
+    }
+    /// Announce `vs` as wrapped read-slice iterators.
+    fn reserve_iter_read<K: RSink<OwnedRegion<Self>>>(_r: &mut K, _vs: &[Vec<Self>]) -> bool {
+        false
+    }
+}
+macro_rules! elem_iter_read {
+    ($t:ty) => {
+        fn put_iter_read<K: Sink<OwnedRegion<$t>>>(k: &mut K, v: &[$t], which: usize) -> Option<K::Out> {
+            use flatcontainer::impls::slice::ReadSlice;
+            let mut tmp = flatcontainer::SliceRegion::<MirrorRegion<$t>>::default();
+            let _pad = tmp.push(&[<$t>::default(); 3][..]);
+            let _pad = tmp.push(v);
+            let i = tmp.push(v);
+            let rs = tmp.index(i);
+            Some(match which {
+                0 => k.put(PushIter(rs)),
+                1 => k.put(PushIter(rs.iter())),
+                _ => {
+                    let o = v.to_vec();
+                    let b: ReadSlice<'_, MirrorRegion<$t>> = IntoOwned::borrow_as(&o);
+                    k.put(PushIter(b.iter()))
+                }
+            })
+        }
+        fn reserve_iter_read<K: RSink<OwnedRegion<$t>>>(r: &mut K, vs: &[Vec<$t>]) -> bool {
+            let mut tmp = flatcontainer::SliceRegion::<MirrorRegion<$t>>::default();
+            let _pad = tmp.push(&[<$t>::default(); 3][..]);
+            let idx: Vec<_> = vs.iter().map(|v| tmp.push(v.as_slice())).collect();
+            let tmp = &tmp;
+            r.reserve(idx.iter().map(move |i| PushIter(tmp.index(*i).iter())));
+            true
+        }
+    };
 }
 impl Elem for u8 {
+    elem_iter_read!(u8);
     const NAME: &'static str = "u8";
     const PLAIN: bool = true;
     fn gen(t: &mut Tape, p: &Gp) -> u8 {
@@ -643,6 +690,7 @@ impl Elem for u8 {
     }
 }
 impl Elem for u64 {
+    elem_iter_read!(u64);
     const NAME: &'static str = "u64";
     const PLAIN: bool = true;
     fn gen(t: &mut Tape, p: &Gp) -> u64 {
@@ -667,11 +715,18 @@ impl Elem for String {
     }
 }
 
-pub fn gen_vec<T>(t: &mut Tape, p: &Gp, mut f: impl FnMut(&mut Tape, &Gp) -> T) -> Vec<T> {
+pub fn gen_vec<T>(t: &mut Tape, p: &Gp, huge_ok: bool, mut f: impl FnMut(&mut Tape, &Gp) -> T) -> Vec<T> {
     let (small, big) = p.max_len();
     if !p.small && p.depth == 0 && !light() && (t.chance(4) || p.mega) {
         // element-count boundaries: 255/256/257/1000 tiny elements (mega: 70 000)
-        let n = if p.mega { 70_000 + t.below(1000) } else { [255usize, 256, 257, 1000][t.below(4)] };
+        let n = if p.mega {
+            70_000 + t.below(1000)
+        } else if huge_ok && t.chance(24) {
+            // rarely: around 2^16 elements (not for the per-push-expensive coded regions)
+            [65_535usize, 65_536, 65_537][t.below(3)]
+        } else {
+            [255usize, 256, 257, 1000][t.below(4)]
+        };
         let q = Gp { small: true, depth: p.depth + 2, mega: false, ..p.clone() };
         // every element is generated from a two-byte tape derived from its position (a pure
         // function of the case; keeps the real tape short)
@@ -725,7 +780,7 @@ impl<T: Elem> Spec for Owned<T> {
             // byte strings that look like text
             return gen_string(t, p).into_bytes().into_iter().map(|b| byte_as::<T>(b)).collect();
         }
-        gen_vec(t, p, T::gen)
+        gen_vec(t, p, true, T::gen)
     }
     fn shrink(v: &Vec<T>) -> Vec<Vec<T>> {
         shrink_vec(v)
@@ -752,9 +807,16 @@ impl<T: Elem> Spec for Owned<T> {
     fn push_via<K: Sink<Self::R>>(k: &mut K, v: &Vec<T>, f: &mut Forms) -> K::Out {
         const NAMES: &[&str] = &[
             "&Vec<T>", "Vec<T>", "&[T]", "&&[T]", "[T;N]", "&[T;N]", "&&[T;N]", "PushIter<Vec>",
-            "PushIter<IntoIter>", "read(region)", "Vec<T>(spare capacity)",
+            "PushIter<IntoIter>", "read(region)", "Vec<T>(spare capacity)", "PushIter<ReadSlice(region)>",
+            "PushIter<ReadSliceIter(region)>", "PushIter<ReadSliceIter(borrowed)>",
         ];
-        match f.pick("Owned", NAMES) {
+        let pick = f.pick("Owned", NAMES);
+        if pick >= 11 {
+            if let Some(out) = T::put_iter_read(k, v, pick - 11) {
+                return out;
+            }
+        }
+        match pick {
             10 => {
                 let mut w: Vec<T> = Vec::with_capacity(v.len() * 2 + 100);
                 w.extend(v.iter().cloned());
@@ -780,6 +842,13 @@ impl<T: Elem> Spec for Owned<T> {
     fn push_read<'a, K: Sink<Self::R>>(k: &mut K, item: RI<'a, Self>) -> K::Out {
         k.put(item)
     }
+    fn push_owned_ref<'a, K: Sink<Self::R>>(k: &mut K, o: &'a Vec<T>, which: usize) -> K::Out {
+        match which % 3 {
+            0 => k.put(o.as_slice()),
+            1 => k.put(o),
+            _ => k.put(&o.as_slice()),
+        }
+    }
     fn push_all_via<K: BatchSink<Self::R>>(k: &mut K, vs: &[Vec<T>], f: &mut Forms) {
         match f.pick("Owned(batch)", &["&Vec<T>", "Vec<T>", "&[T]"]) {
             0 => k.put_all(vs.iter()),
@@ -788,7 +857,11 @@ impl<T: Elem> Spec for Owned<T> {
         }
     }
     fn reserve_items<K: RSink<Self::R>>(r: &mut K, vs: &[Vec<T>], f: &mut Forms) -> bool {
-        match f.pick("Owned(reserve)", &["&Vec<T>", "&[T]", "&[T;N]", "PushIter"]) {
+        let pick = f.pick("Owned(reserve)", &["&Vec<T>", "&[T]", "&[T;N]", "PushIter", "PushIter<ReadSliceIter>"]);
+        if pick == 4 && T::reserve_iter_read(r, vs) {
+            return true;
+        }
+        match pick {
             0 => r.reserve(vs.iter()),
             1 => r.reserve(vs.iter().map(|v| v.as_slice())),
             2 => {
